@@ -284,6 +284,27 @@ def all_children_fact(m, pa, f, c, recv):
                     if ok:
                         return True, "count == children().len() with every increment under `%s` of the loop element" % pred
                     return False, "a counter is compared with children().len() but %s" % pred
+    # idiom (ii): children().iter().all(|t| t.state().is_completed()) holds at the write
+    from vlib import quant
+    for qn in quant.quantifiers(m, f):
+        if qn.kind != "forall" or qn.closure is None or qn.holds_at(f, c.b) is not True:
+            continue
+        r = pa.root(f, qn.source.args[0]) if qn.source.args else ("?",)
+        for _ in range(6):
+            if r[0] == "call" and re.search(r"::(iter|into_iter|deref|as_slice|as_ref|borrow)$", r[1]):
+                cc = Call(f, r[2])
+                r = pa.root(f, cc.args[0]) if cc.args else ("?",)
+                continue
+            break
+        if not (r[0] == "call" and r[1].endswith("Task::children")):
+            continue
+        if pa.root(f, Call(f, r[2]).args[0]) != recv:
+            continue
+        g_ = qn.closure
+        pred = _closure_state_pred(m, g_)
+        if pred in ("is_completed", "is_success"):
+            return True, "children().iter().all(|t| t.state().%s()) holds at the write" % pred
+        return False, "`all` over the children is tested, but its predicate is not is_completed / is_success of the element's state"
     # idiom (iii): the node has no child nodes
     for g in gs:
         r = g.root
@@ -292,6 +313,33 @@ def all_children_fact(m, pa, f, c, recv):
             if v[0] == "call" and v[1].endswith("Node::children"):
                 return True, "the node declares no children (`node.children().is_empty()`)"
     return False, "no counting idiom, no `all`, no empty-children test dominates the write"
+
+
+def _closure_state_pred(m, g):
+    """the closure is `|t| t.state().<pred>()`: straight-line, its value is the predicate of the state of its argument"""
+    pa = Prov(m, "alias")
+    if any(b["t"][0] == "switch" for b in g.blocks):
+        return None
+    pred = None
+    for c in g.calls():
+        mt = T.STATE_PRED.match(c.q)
+        if mt:
+            if pred is not None:
+                return None
+            sr = pa.root(g, c.args[0])
+            if not (sr[0] == "call" and sr[1] == T.Q_STATE):
+                return None
+            el = pa.root(g, Call(g, sr[2]).args[0])
+            if el[:2] != ("param", 2):
+                return None
+            if not (c.dest[0] == 0 and not c.dest[1]):
+                return None
+            pred = mt.group(1)
+        elif c.q == T.Q_STATE or c.q.endswith("Deref>::deref"):
+            continue
+        else:
+            return None
+    return pred
 
 
 def _count_idiom(m, pa, f, loc, vec):
